@@ -175,7 +175,16 @@ def make_cases(rng, tier):
                 if fill >= 0 and not fwd:
                     hs.append(("x-fill", "f" * fill))
             reqs.append(dict(route=route, headers=[[n, b64(v.encode())] for n, v in hs] + [["X-Verif-Seq", b64(seq.encode())]],
-                             body_b64=b64(body), seq=seq, how=how, body=body, wire=hs + [("X-Verif-Seq", seq)]))
+                             body_b64=b64(body), seq=seq, how=how, body=body, wire=hs + [("X-Verif-Seq", seq)], chunked=False))
+        # the same bodies streamed without a Content-Length (Transfer-Encoding: chunked) around the limit: what is acknowledged is what
+        # was sent, whole; a body over max_body is refused whatever its framing
+        for k, kind in enumerate(["max-1", "max", "max+1", "max+1", "rand"]):
+            body, how = gen_body(rng, mb, kind)
+            if k == 3:
+                body = body * 3 + b"tail"
+            seq = "c%d" % k
+            reqs.append(dict(route="/p" if k % 2 == 0 else "/d", headers=[["X-Verif-Seq", b64(seq.encode())]], body_b64=b64(body), seq=seq, how="chunked-" + how,
+                             body=body, wire=[("X-Verif-Seq", seq)], chunked=True))
         pubs = []
         for k in range(6 if tier == "quick" else 12):
             route = "/p" if k % 2 == 0 else "/d"
@@ -282,7 +291,7 @@ def main(ctx, replay):
         c["detour"] = ["", "cancel-resume", "", "cancel-requeue", "", "ids"][k % 6]
     payload = {"dir": os.path.join(ctx.scratch, "fid"), "par": 16,
                "cases": [{k: c[k] for k in ("config", "backend", "forward", "pull_path", "reopen")} | {"detour": c.get("detour", "")} |
-                         {"requests": [{k: r[k] for k in ("route", "headers", "body_b64", "seq")} for r in c["requests"]],
+                         {"requests": [{k: r[k] for k in ("route", "headers", "body_b64", "seq", "chunked")} for r in c["requests"]],
                           "publish": [{k: p[k] for k in ("body", "seq")} for p in c["publish"]]} for c in cases]}
     rc, out, err = C.harness_run(info["hbin"], ["fidelity"], payload, timeout=3000)
     if rc != 0:
